@@ -457,6 +457,13 @@ func (ri *RInterp) assign(s S, lhs, rhs ast.Expr, ents map[ast.Expr]string) S {
 				if all {
 					s = s.Set("ae:"+id, "T")
 				}
+			case *ast.CallExpr:
+				// make([]int, 0[, n]) is as empty as the literal []int{}
+				if b, ok := Callee(info, x).(*types.Builtin); ok && b.Name() == "make" && len(x.Args) >= 2 {
+					if c, ok := ri.constOf(x.Args[1]); ok && c == 0 {
+						s = s.Set("ae:"+id, "T")
+					}
+				}
 			}
 		}
 	}
